@@ -47,7 +47,7 @@ contract("monkeytype.typing:shrink_types", props=["C04", "C05", "C06", "C01"], t
                   "post:empty": "implies(len(types) == 0, result is ANY)"})
 
 _KOK = "(max_typed_dict_size is None or max_typed_dict_size >= 0)"
-contract("monkeytype.typing:get_dict_type", props=["C04", "C05", "C06"], theories=TH,
+contract("monkeytype.typing:get_dict_type", props=["C04", "C05", "C06", "C03"], theories=TH,
          params={"dct": "Val", "max_typed_dict_size": "Opt[int]"}, result="Ty", scc="infer", decreases=["size(dct)", "0"],
          requires={"exact-dict": "cls_of(dct) is CLS_dict", "val-wf": "wf_val(dct)"},
          hints={"td-keys": "implies(kind(result) is K_TD, forall(dct, lambda k: has(td_req(result), k) and is_strval(k)))",
